@@ -38,7 +38,10 @@ TWO_IN = {"ops": [{"kind": "EW2", "ins": [0, 1], "outs": [2]}, {"kind": "SAMEIN0
 MUL1 = {"ops": [{"kind": "EW2", "ins": [0, 1], "outs": [2]}], "trole": ["act", "c", "act"], "gins": [0], "gouts": [2], "codes": ["MUL"]}
 MODELS = {"chain": _m(CHAIN), "fc_add": _m(FC_ADD), "two_in": _m(TWO_IN),
           # two signatures, calibrated one at a time (the tensors of the other signature keep their - possibly empty - entries)
-          "two_sig": _m(FC_ADD, MUL1)}
+          "two_sig": _m(FC_ADD, MUL1),
+          # a STATEFUL model: an RNN cell (unknown to the quantizer, state in a variable tensor) between two FULLY_CONNECTED ops;
+          # "true per-sample min and max" are those of each sample run from the initial state
+          "stateful": dict(_m(dict(synth.STATEFUL_CHAIN, codes=["FULLY_CONNECTED", "RNN", "FULLY_CONNECTED"])), stateful=True)}
 
 
 def runtime_view(model):
@@ -88,7 +91,12 @@ def _replay(item):
     modes.append([SRQ if on else NOQ for on in beh["sel"][k:k + len(sub["ops"])]])
     k += len(sub["ops"])
   scn = {"subs": mdl["subs"], "mode": modes, "inmode": SRQ if beh["selIn"] else NOQ, "outmode": SRQ if beh["selOut"] else NOQ, "codes": mdl["codes"]}
-  model, info = synth.build(scn, seed)
+  if mdl.get("stateful"):
+    if beh["sel"][1]:
+      return {"model": mname, "beh": beh, "problems": [], "compared": 0, "need_cal": False}      # the RNN cell cannot be selected
+    model, info = synth.stateful_chain(seed)
+  else:
+    model, info = synth.build(scn, seed)
   acts, idx, _ = runtime_view(mdl)
   rng = np.random.default_rng(seed + 17)
   from harness import project as _project
@@ -108,6 +116,9 @@ def _replay(item):
   for d in data:
     tr = {}
     for si, sub in enumerate(mdl["subs"]):
+      if mdl.get("stateful"):      # every sample is run from the initial state: a fresh interpreter per sample
+        it = tfl.Interpreter(model_content=model, experimental_preserve_all_tensors=True,
+                             experimental_op_resolver_type=tfl.OpResolverType.BUILTIN_WITHOUT_DEFAULT_DELEGATES)
       runner = it.get_signature_runner(sigkey[si])
       runner(**d[si])
       details = {x["name"]: x["index"] for x in it.get_tensor_details(subgraph_index=si)} if nsub > 1 else {x["name"]: x["index"] for x in it.get_tensor_details()}
